@@ -39,6 +39,10 @@ type Solver struct {
 	Errors    []string
 	log       io.Writer
 	restarts  int
+	// Fallback names a second solver asked (one-shot process) when the primary answers unknown.
+	Fallback       string
+	FirstTimeoutMs int
+	FallbackUsed   int
 	// Tactic, when set, is tried first (check-sat-using); any error/unknown falls back to plain check-sat.
 	Tactic          string
 	TacticFallbacks int
@@ -145,7 +149,7 @@ func (s *Solver) roundtrip(txt string) ([]string, bool) {
 			s.start()
 		}
 		return r.lines, r.ok
-	case <-time.After(time.Duration(s.timeoutMs)*time.Millisecond*2 + 20*time.Second):
+	case <-time.After(time.Duration(s.timeoutMs)*time.Millisecond + 8*time.Second):
 		// hung solver: kill and restart
 		s.cmd.Process.Kill()
 		<-ch
@@ -197,15 +201,28 @@ type Model map[string]*Term // var name -> constant term
 // (reset) together with the cone of definitions it needs. On sat, a model over wantVars is returned.
 func (s *Solver) Check(tb *TB, lits []*Term, wantVars []*Term) (Result, Model) {
 	t0 := time.Now()
-	defer func() { s.Time += time.Since(t0) }()
+	var lastQuery string
+	defer func() {
+		d := time.Since(t0)
+		s.Time += d
+		if p := os.Getenv("GOSYM_SLOWLOG"); p != "" && d > 5*time.Second {
+			s.seq++
+			os.WriteFile(fmt.Sprintf("%s.%d.%d.smt2", p, os.Getpid(), s.seq), []byte(fmt.Sprintf("; took %v\n%s", d, lastQuery)), 0o644)
+		}
+	}()
 	var sb strings.Builder
 	s.emitted = map[int]bool{}
 	sb.WriteString("(reset)\n")
+	firstTimeout := s.timeoutMs
+	if s.Fallback != "" && s.FirstTimeoutMs > 0 && s.FirstTimeoutMs < firstTimeout {
+		firstTimeout = s.FirstTimeoutMs
+	}
 	if s.kind == "cvc5" {
 		sb.WriteString("(set-option :produce-models true)\n(set-logic ALL)\n")
 	} else {
-		fmt.Fprintf(&sb, "(set-option :produce-models true)\n(set-option :timeout %d)\n(set-option :pp.decimal false)\n", s.timeoutMs)
+		fmt.Fprintf(&sb, "(set-option :produce-models true)\n(set-option :timeout %d)\n(set-option :pp.decimal false)\n", firstTimeout)
 	}
+	headerLen := sb.Len()
 	seenSV := map[*Term]bool{}
 	var sides []*Term
 	var addSides func(t *Term)
@@ -236,6 +253,7 @@ func (s *Solver) Check(tb *TB, lits []*Term, wantVars []*Term) (Result, Model) {
 	}
 	res := Unknown
 	attempt := func(cmd string, final bool) bool {
+		lastQuery = sb.String() + cmd
 		lines, ok := s.roundtrip(sb.String() + cmd)
 		for _, l := range lines {
 			if strings.Contains(l, "(error") {
@@ -264,6 +282,16 @@ func (s *Solver) Check(tb *TB, lits []*Term, wantVars []*Term) (Result, Model) {
 		attempt("(check-sat)\n", true)
 	}
 	var model Model
+	if res == Unknown && s.Fallback == "cvc5" {
+		// portfolio: cvc5 decides many real-arithmetic conjunctions in milliseconds on which z3's nlsat times out
+		body := sb.String()[headerLen:]
+		res, model = s.cvc5OneShot(tb, body, wantVars)
+		s.FallbackUsed++
+		if res != Unknown {
+			s.Queries[res]++
+			return res, model
+		}
+	}
 	if res == Sat && len(wantVars) > 0 {
 		var q strings.Builder
 		q.WriteString("(get-value (")
@@ -278,6 +306,40 @@ func (s *Solver) Check(tb *TB, lits []*Term, wantVars []*Term) (Result, Model) {
 	}
 	s.Queries[res]++
 	return res, model
+}
+
+// cvc5OneShot runs one query in a fresh cvc5 process.
+func (s *Solver) cvc5OneShot(tb *TB, body string, wantVars []*Term) (Result, Model) {
+	var q strings.Builder
+	q.WriteString("(set-option :produce-models true)\n(set-logic ALL)\n")
+	q.WriteString(body)
+	q.WriteString("(check-sat)\n")
+	if len(wantVars) > 0 {
+		q.WriteString("(get-value (")
+		for _, v := range wantVars {
+			q.WriteString(v.ref() + " ")
+		}
+		q.WriteString("))\n")
+	}
+	cmd := exec.Command("cvc5", "--lang=smt2", fmt.Sprintf("--tlimit=%d", s.timeoutMs))
+	cmd.Stdin = strings.NewReader(q.String())
+	outb, _ := cmd.Output()
+	out := string(outb)
+	lines := strings.SplitN(strings.TrimSpace(out), "\n", 2)
+	if len(lines) == 0 || strings.Contains(out, "(error") {
+		return Unknown, nil
+	}
+	switch strings.TrimSpace(lines[0]) {
+	case "unsat":
+		return Unsat, nil
+	case "sat":
+		var m Model
+		if len(lines) > 1 && len(wantVars) > 0 {
+			m = parseModel(tb, lines[1], wantVars)
+		}
+		return Sat, m
+	}
+	return Unknown, nil
 }
 
 // ---------- s-expression model parsing ----------
